@@ -115,14 +115,16 @@ def multi_shard(shard, nshards, tier):
     do = R.make_doc([El('r', None, [El('y', [('i', '1')]), El('x'), El('y', None, [El('z')]), El('w')])], name='OTHER')
     dr = R.make_doc([El('q', None, [El('z'), 't', El('x', [('i', '9')]), El('z')])], name='RTF')
     trees = {'m': (dm, ''), 'o': (do, "document('o.xml')"), 'f': (dr, 'xalan:nodeset($f)')}
-    OPS = [('m', '/r/x'), ('m', '/r/z'), ('m', '//x|/r/y'), ('o', '/r/y'), ('o', '//z|/r/w'), ('f', '/q/z'), ('f', '//@i|/q/x')]
+    # the last operand is a key() result: every child of r is indexed twice under the same value (two declarations of one name)
+    OPS = [('m', '/r/x'), ('m', '/r/z'), ('m', '//x|/r/y'), ('o', '/r/y'), ('o', '//z|/r/w'), ('f', '/q/z'), ('f', '//@i|/q/x'), ('m', "key('kk','v')")]
+    KEYREF = {"key('kk','v')": '/r/*'}
 
     def optext(t, pth):
         pre = trees[t][1]
         if not pre:
             return pth
         return '|'.join(pre + a for a in pth.split('|'))
-    combos = []
+    combos = [(k,) for k in range(len(OPS))]
     for n in (2, 3) + ((4,) if thorough else ()):
         combos += list(itertools.permutations(range(len(OPS)), n))
     if not thorough:
@@ -137,7 +139,7 @@ def multi_shard(shard, nshards, tier):
     refsets = {}
     for i, (t, pth) in enumerate(OPS):
         d = trees[t][0]
-        v = X.evaluate(xpparse.parse_text(pth), X.Ctx(d.root))
+        v = X.evaluate(xpparse.parse_text(KEYREF.get(pth, pth)), X.Ctx(d.root))
         refsets[i] = [(t, d.path(n)) for n in v]
     order = {t: {d.path(n): k for k, n in enumerate(d.nodes)} for t, (d, _) in trees.items()}
     for bi, batch in enumerate(batches):
@@ -146,6 +148,7 @@ def multi_shard(shard, nshards, tier):
         body = ''.join('<u i="%d"><xsl:for-each select="%s"><h t="{generate-id(/)}"><xsl:call-template name="path"/></h></xsl:for-each></u>'
                        % (i, ' | '.join(optext(*OPS[k]) for k in combo).replace('&', '&amp;').replace('<', '&lt;').replace('"', '&quot;')) for i, combo in enumerate(batch))
         xsl = ('<xsl:stylesheet version="1.0" xmlns:xsl="http://www.w3.org/1999/XSL/Transform" xmlns:xalan="http://xml.apache.org/xalan" exclude-result-prefixes="xalan">'
+               '<xsl:key name="kk" match="r/*" use="\'v\'"/><xsl:key name="kk" match="r/*" use="string(\'v\')"/>'
                '<xsl:variable name="f"><xsl:copy-of select="document(\'f.xml\')/node()"/></xsl:variable><xsl:template match="/"><out m="{generate-id(/)}" o="{generate-id(document(\'o.xml\'))}" '
                'f="{generate-id(xalan:nodeset($f))}">%s</out></xsl:template>%s</xsl:stylesheet>' % (body, c02.VARS_PATH_TEMPLATES))
         try:
